@@ -16,6 +16,9 @@ import (
 
 const injectedFailure = "injected store failure"
 
+// the store's failure wraps a cause, as real stores do: its message is the whole text, not the cause's
+func injectedErr() error { return fmt.Errorf("injected store %w", errors.New("failure")) }
+
 type storeKind int
 
 const (
@@ -85,7 +88,7 @@ func (s *testStore) GetBalances(ctx context.Context, q numscript.BalanceQuery) (
 	i := s.ncalls
 	s.ncalls++
 	if i == s.failAt {
-		return nil, errors.New(injectedFailure)
+		return nil, injectedErr()
 	}
 	s.log = append(s.log, storeCall{balances: copyQuery(q)})
 	switch s.kind {
@@ -146,7 +149,7 @@ func (s *testStore) GetAccountsMetadata(ctx context.Context, q numscript.Metadat
 	i := s.ncalls
 	s.ncalls++
 	if i == s.failAt {
-		return nil, errors.New(injectedFailure)
+		return nil, injectedErr()
 	}
 	for a, ks := range q {
 		for _, k := range ks {
@@ -255,6 +258,18 @@ func runImpl(text string, vars map[string]string, st numscript.Store, flag bool)
 	if flag {
 		flags = map[string]struct{}{interpreter.ExperimentalOverdraftFunctionFeatureFlag: {}}
 	}
+	if ts, ok := st.(*testStore); ok && len(text)%2 == 0 {
+		// one case in two: the parsed program has ALREADY been run once, with other amounts in its
+		// variables and against a copy of the store - a parsed program keeps nothing from a run
+		func() {
+			defer func() { recover() }()
+			warm := map[string]string{}
+			for k, v := range vars {
+				warm[k] = perturbVar(v)
+			}
+			p.RunWithFeatureFlags(context.Background(), warm, newStore(ts.kind, deepCopyBalances(ts.bal), deepCopyMeta(ts.meta), -1), flags)
+		}()
+	}
 	res, err := p.RunWithFeatureFlags(context.Background(), vars, st, flags)
 	if err != nil {
 		name := fmt.Sprintf("%T", err)
@@ -263,6 +278,21 @@ func runImpl(text string, vars map[string]string, st numscript.Store, flag bool)
 			ResEmpty: res.Postings == nil && res.Metadata == nil && res.AccountsMetadata == nil}
 	}
 	return Outcome{Class: "ok", Res: res}
+}
+
+// perturbVar: the same kind of text with another amount ("USD 5" -> "USD 12", "7" -> "14"); anything else unchanged
+func perturbVar(v string) string {
+	fs := strings.Fields(v)
+	if len(fs) == 0 {
+		return v
+	}
+	last := fs[len(fs)-1]
+	n, ok := new(big.Int).SetString(last, 10)
+	if !ok {
+		return v
+	}
+	fs[len(fs)-1] = n.Add(n, big.NewInt(7)).String()
+	return strings.Join(fs, " ")
 }
 
 // ---------------------------------------------------------------------------------------------
